@@ -11,6 +11,44 @@ import cbgen
 CT = cbgen.CTYPE
 
 
+def split_params(text):
+    """top-level comma split of a parameter list (function pointer declarators contain parentheses)"""
+    out, depth, cur = [], 0, ""
+    for ch in text:
+        if ch in "(<[":
+            depth += 1
+        elif ch in ")>]":
+            depth -= 1
+        if ch == "," and depth == 0:
+            out.append(cur.strip())
+            cur = ""
+        else:
+            cur += ch
+    if cur.strip():
+        out.append(cur.strip())
+    return out
+
+
+def param_type(p):
+    """type of a parameter declaration with the parameter name removed, spaces dropped"""
+    m = re.search(r"\(\*\s*(\w+)\s*\)", p)
+    if m:
+        return (p[:m.start(1)] + p[m.end(1):]).replace(" ", "")
+    return re.sub(r"\s*\w+$", "", p).replace(" ", "")
+
+
+def inline_functions(header_text, prefix="static inline "):
+    """(return type, name, [parameter declarations]) of every inline function definition"""
+    out = []
+    for mm in re.finditer(re.escape(prefix) + r"([^\n(]*?)\b(\w+)\(", header_text):
+        i, depth = mm.end(), 1
+        while i < len(header_text) and depth:
+            depth += {"(": 1, ")": -1}.get(header_text[i], 0)
+            i += 1
+        out.append((mm.group(1).strip().replace(" ", ""), mm.group(2), split_params(header_text[mm.end():i - 1])))
+    return out
+
+
 def wrapper_names(owner_kind, owner, tr, m, cont, ctx, clash_obj_names, cfg, group_clash=False):
     """candidate names per cglue-bindgen/src/types.rs create_wrappers_c; owner_kind: 'obj' | 'group'.
     Entries whose signature differs from type to type (by-value receiver) carry a container/context prefix;
@@ -44,16 +82,14 @@ def gen(model, header_text):
             seen.setdefault(m["name"], set()).add(o["trait"])
     clash = {n for n, s in seen.items() if len(s) > 1}
     defined = {}
-    for mm in re.finditer(r"static inline ([^\n(]*?)\b(\w+)\(([^)]*)\)", header_text):
-        params = [x.strip() for x in mm.group(3).split(",")]
-        # parameter types after `self`, normalised (drop the parameter name)
-        ptypes = [re.sub(r"\s*\w+$", "", x).replace(" ", "") for x in params[1:]]
-        defined[mm.group(2)] = {"ret": mm.group(1).strip().replace(" ", ""), "params": ptypes,
-                                "self": re.sub(r"\s*\w+$", "", params[0]).replace(" ", "") if params and params[0] else ""}
+    for (rett, fname, params) in inline_functions(header_text):
+        defined[fname] = {"ret": rett, "params": [param_type(x) for x in params[1:]],
+                          "self": param_type(params[0]) if params else ""}
     c = []
     c.append('#include <stdio.h>\n#include <string.h>\n#include "processed.h"\n')
     c.append("static unsigned char SBUF[8] = {1,2,3,4,5,6,7,8};\nstatic int INST; static int INST2; static int CTXV; static int CBX;\n")
     c.append("static bool mock_cb_Pt(void *c, struct Pt v) { (void)c; (void)v; return true; }\nstatic bool mock_cb_u64(void *c, uint64_t v) { (void)c; (void)v; return true; }\n")
+    c.append("static void mock_fn(int32_t v) { (void)v; }\n")
     c.append('static void ev(const char *s) { fputs(s, stdout); fputc(10, stdout); }\n')
     c.append('static void mock_box_drop(void *p) { printf("{\\"ev\\":\\"box_drop\\",\\"ok\\":%d}\\n", p == (void *)&INST); }\n')
     c.append('static const void *mock_arc_clone(const void *p) { printf("{\\"ev\\":\\"ctx_clone\\",\\"ok\\":%d}\\n", p == (const void *)&CTXV); return p; }\n')
@@ -75,7 +111,7 @@ def gen(model, header_text):
             for m in traits[tr]["methods"]:
                 fn = "mock_%d_%s_%s" % (ti, tr, m["name"])
                 recv = {"ref": "const struct %s *cont" % cname, "mut": "struct %s *cont" % cname, "own": "struct %s cont" % cname}[m["recv"]]
-                args = "".join(", %s a%d" % (CT[t], i) for i, t in enumerate(m["args"]))
+                args = "".join(", " + cbgen.decl(CT[t], "a%d" % i) for i, t in enumerate(m["args"]))
                 ret = ("struct %s" % cname) if m["ret"] == "cont" else CT[m["ret"]]
                 body = []
                 if m["recv"] == "own":
@@ -96,6 +132,8 @@ def gen(model, header_text):
                         fmt.append("%d"); vals.append("(int)(a%d - SBUF)" % i)
                     elif t in cbgen.CB_ELEM:
                         fmt.append("[%d,%d]"); vals.append("(int)(a%d.context == (void *)&CBX), (int)(a%d.func == mock_cb_%s)" % (i, i, cbgen.CB_ELEM[t][0]))
+                    elif t == "fnptr":
+                        fmt.append("%d"); vals.append("(int)(a%d == mock_fn)" % i)
                 body.append('    printf("{\\"ev\\":\\"slot\\",\\"ty\\":%d,\\"tr\\":\\"%s\\",\\"m\\":\\"%s\\",\\"cont_ok\\":%%d,\\"args\\":[%s]}\\n", cont_ok%s);'
                             % (ti, tr, m["name"], ",".join(fmt), ("," + ",".join(vals)) if vals else ""))
                 if m["recv"] == "own":
@@ -176,6 +214,8 @@ def gen(model, header_text):
                     argv.append("SBUF + %d" % (i + 2)); sent.append(i + 2)
                 elif t in cbgen.CB_ELEM:
                     argv.append("(OpaqueCallback_%s){&CBX, mock_cb_%s}" % (cbgen.CB_ELEM[t][0], cbgen.CB_ELEM[t][0])); sent.append([1, 1])
+                elif t == "fnptr":
+                    argv.append("mock_fn"); sent.append(1)
             rec["sent"] = sent
             rec["expret"] = rvals.get((ti, tr, m["name"]), [])
             selfarg = "o" if m["recv"] == "own" else "&o"
